@@ -2,15 +2,15 @@ SPECIFICATION LiveSpec
 CONSTANTS
   Chunks = {1, 2}
   Peers = {1, 2}
-  Limits = {0, 1, 2}
-  ALimits = {1, 3}
+  Limits = {1}
+  ALimits = {3}
   BInit = 1
   BMax = 4
   Succ = 2
   Life <- Life53
   Flaky = {1}
   AnnBy <- AnnSkew
-  BadFrom = {1}
+  BadFrom = {}
   MaxHist = 8
   ReannounceLeak = FALSE
 PROPERTIES C24_Live_Dropped
